@@ -27,6 +27,9 @@ RULES = {
              'start_at and sends them to the named member',
     'C05.g': 'a tombstone stays in memory until a reclaiming snapshot: the full synchronisation learns about removals only from '
              'in-memory tombstones, so the incremental snapshot must not drop them',
+    'C05.h': 'the incremental synchronisation reads every value from the database its record names: a database handle that is carried '
+             'from one record to the next (a one-entry cache) is re-assigned only under the comparison of the cached name with the '
+             'record\'s database name, together with that name',
 }
 
 
@@ -263,3 +266,41 @@ def run(ck, m):
               'replicate-remove for the key, the rejoining node keeps it' % drops[0].where(), wb.loc(tm['Deleted']))
     except core.AnchorError as e:
         ck.undecided('C05.g', 'writer', 'anchor', str(e))
+
+    # ---- (h) the cached database handle -----------------------------------------------------
+    from props.C07 import natural_loops
+    sb2 = [b for b in bs if b.id != entry.id and any(callee(t).endswith('disk_ops::read_operations_since') for _, t in b.calls())]
+    nh = 0
+    for b in sb2:
+        loops = natural_loops(b)
+        inloop = set()
+        for h, body in loops:
+            inloop |= body
+        cmps = [bi for bi, t in b.calls() if callee_decl(t) in ('std::cmp::PartialEq::ne', 'std::cmp::PartialEq::eq')
+                and ('str' in t['f'].get('dargs', '') or 'String' in t['f'].get('dargs', ''))]
+        edges = []
+        for c in cmps:
+            for (s2, tt, ft) in bool_switches(b, c):
+                edges.append((tt, ft))
+        for l, ty in enumerate(b.locals):
+            if ty != '&nundb::bo::Database':
+                continue
+            defs = [(bi, kind) for (bi, si, kind, pl) in b.defs().get(l, [])]
+            if len(defs) < 2 or not b.vars or b.var_name(l) is None:
+                continue          # compiler temporaries have one definition; a carried handle is a named, re-assigned variable
+            nh += 1
+            bad = []
+            for bi, kind in defs:
+                if bi not in inloop:
+                    continue
+                if not any((b.dominates(tt, bi) and not b.dominates(ft, bi)) or (b.dominates(ft, bi) and not b.dominates(tt, bi)) for tt, ft in edges):
+                    bad.append(b.loc(bi))
+            ck.ob('C05.h', short(b.id), 'carried-handle:%s' % (b.var_name(l) or 'db'), not bad,
+                  'the carried database handle is re-assigned only under the comparison with the record\'s database name' if not bad else
+                  'the database handle carried between records is re-assigned at %s outside the name comparison: the cached name and the handle '
+                  'disagree afterwards, and the next update record of the previously cached database reads its key from the wrong database '
+                  '(the joiner is sent <Empty> or another database\'s value)' % bad, '%s:%s' % (b.file, b.line))
+    if nh == 0:
+        ck.ob('C05.h', 'incremental-sync', 'no-carried-handle', bool(sb2),
+              'no database handle is carried from one record to the next (every record looks its database up)' if sb2 else
+              'incremental synchronisation builder not found', '')
